@@ -177,9 +177,38 @@ def load_discharge_table():
     return json.load(open(path))
 
 
+def _same_owner(entry_fn, fname, site_fn):
+    """is `fname` a function of the same type (any impl of it) or, for free functions, of the same module as the
+    function a table entry names?  An expression moved into a helper keeps its discharge entry."""
+    eb = entry_fn.split('::{closure')[0]
+    fb = fname.split('::{closure')[0]
+    st = getattr(site_fn, 'self_ty', None)
+    if st is None and site_fn is not None and '::{closure' in fname:
+        # a closure: owner of the enclosing function
+        m = re.match(r'^<(.+?) as ', fb)
+        st = m.group(1) if m else None
+    if st:
+        return eb.startswith('<%s as ' % st) or eb.startswith(st + '::') or (eb.startswith('<') and eb[1:].startswith(st + '<'))
+    if eb.startswith('<') or fb.startswith('<'):
+        return False
+    return eb.rsplit('::', 1)[0] == fb.rsplit('::', 1)[0] and eb.count('::') == fb.count('::')
+
+
 def table_lookup(table, fname, site, config=None):
+    e = _table_lookup(table, fname, site, config, exact=True)
+    if e is None:
+        e = _table_lookup(table, fname, site, config, exact=False)
+    return e
+
+
+def _table_lookup(table, fname, site, config, exact):
     for e in table:
-        if e['fn'] != fname or e['kind'] != site['kind']:
+        if e['kind'] != site['kind']:
+            continue
+        if exact:
+            if e['fn'] != fname:
+                continue
+        elif e['fn'] == fname or e.get('exact_fn') or not _same_owner(e['fn'], fname, site.get('fn')):
             continue
         if config is not None and 'configs' in e and config not in e['configs']:
             continue
